@@ -10,7 +10,14 @@
 #include <stdlib.h>
 #ifdef VH_MSAN
 #include <sanitizer/msan_interface.h>
+#define POISON(p, n) ((void) 0)
+#define UNPOISON(p, n) ((void) 0)
+#else
+#include <sanitizer/asan_interface.h>
+#define POISON(p, n) ASAN_POISON_MEMORY_REGION (p, n)
+#define UNPOISON(p, n) ASAN_UNPOISON_MEMORY_REGION (p, n)
 #endif
+#define TAILGUARD 48
 
 static char cj[3000], cursig[96];
 static struct vh_setlist L;
@@ -35,8 +42,15 @@ hash_case (const char *phrase, size_t plen, const char *setting, size_t slen, in
   char sig[200];
   char *P = xdup (phrase, plen), *S = xdup (setting, slen);
   size_t osz = sizeof (struct crypt_data);
-  char *blk = malloc (osz + (size_t) align);
+  /* the object is followed by a guard zone that is both poisoned for instrumented code and pattern-filled, so that
+     writes made on the library's behalf by uninstrumented libc routines (explicit_bzero, memset) are seen as well */
+  char *blk = malloc (osz + (size_t) align + TAILGUARD);
   struct crypt_data *d = (struct crypt_data *) (blk + align);
+  memset (blk, 0x3C, (size_t) align);
+  memset (blk + align + osz, 0x3C, TAILGUARD);
+  POISON (blk + align + osz, TAILGUARD);
+  if (align)
+    POISON (blk, (size_t) align);
   memset (d, fill ? 0xA5 : 0, osz);
 #ifdef VH_MSAN
   if (fill)
@@ -81,6 +95,17 @@ hash_case (const char *phrase, size_t plen, const char *setting, size_t slen, in
       snprintf (sig, sizeof sig, "fatal/%s/%.60s/%s", vh_fatal_name (k), vh_fatal_msg, cursig);
       vh_viol (sig, "%s,\"outcome\":\"%s\"}", cj, vh_js (vh_fatal_msg, strlen (vh_fatal_msg)));
       goto out;
+    }
+  UNPOISON (blk, osz + (size_t) align + TAILGUARD);
+  for (size_t i = 0; i < TAILGUARD + (size_t) align; i++)
+    {
+      size_t off = i < (size_t) align ? i : (size_t) align + osz + (i - (size_t) align);
+      if ((unsigned char) blk[off] != 0x3C && ep != 2 && ep != 3)
+        {
+          snprintf (sig, sizeof sig, "wrote-outside-the-data-object/%s", cursig);
+          vh_viol (sig, "%s,\"offset_from_object_start\":%ld}", cj, (long) off - (long) align);
+          goto out;
+        }
     }
   struct crypt_data *o = ep == 2 ? dp : ep == 3 ? 0 : d;
   if (o)
@@ -136,6 +161,7 @@ hash_case (const char *phrase, size_t plen, const char *setting, size_t slen, in
   else
     vh_stat ("failures", 1);
 out:
+  UNPOISON (blk, osz + (size_t) align + TAILGUARD);
   if (ep == 2 && dp != d)
     free (dp);
   free (blk);
